@@ -4,6 +4,7 @@ CONSTANTS
   Templates <- TplC17x
   Bundles <- NoBundle
   Ctxs <- CutCtxs
+  Reqs <- FullReq
   Tries <- One
   Hists <- NoHist
   BackoffCfgs <- NoBoCfgs
